@@ -1,12 +1,13 @@
 SPECIFICATION Spec
 CONSTANTS
-  MaxId = 2
+  MaxId = 3
   MaxGen = 1
   Comps = {0, 1}
   Rels = {1}
   Sized = {0}
   MaxRegs = 1
   CapIncC = 1
+  MaxSteps = 4
 VIEW View
 CONSTRAINT Bound
 INVARIANTS Struct CacheOK Refines IssuedOnce PanicAgrees CacheSelects
